@@ -76,10 +76,4 @@ func init() {
 		cfg.MultiCmd = true
 		return searchCases(r, st, sizes(tier, 2000, 40000), cfg, 5, 10, "g")
 	}
-	propGens["C13"] = func(r *rand.Rand, tier string, st *Stats) []Case {
-		cfg := core
-		cfg.MultiCmd = true
-		cfg.Captures = false
-		return searchCases(r, st, sizes(tier, 1500, 30000), cfg, 3, 12, "g")
-	}
 }
